@@ -2,4 +2,5 @@ let () =
   match Sys.argv with
   | [| _; "heap" |] -> Heap_driver.run ()
   | [| _; "motion" |] -> Motion_driver.run ()
+  | [| _; "ptc" |] -> Ptc_driver.run ()
   | _ -> prerr_endline "usage: ompl_model <heap|...>"; exit 2
